@@ -25,20 +25,24 @@ import (
 
 // vopen is one object handed out by an open/opendir handler call.
 type vopen struct {
-	h      *c11Handler
-	kind   string // "r", "w", "rw", "dir", "stat"
-	name   string
-	seq    int
-	Closes int
-	TErrs  int
-	ctx    context.Context
-	Calls  int
+	h        *c11Handler
+	kind     string // "r", "w", "rw", "dir", "stat"
+	name     string
+	seq      int
+	Closes   int
+	TErrs    int
+	ctx      context.Context
+	Calls    int
+	failList bool // ListAt reports a non-EOF error
 }
 
 func (o *vopen) ReadAt(b []byte, off int64) (int, error) {
 	vsched.Env("open.read", o, false, nil)
 	o.Calls++
 	o.h.calls++
+	if o.h.closeEntered > 0 {
+		o.h.callsAfterCloseEntered++
+	}
 	if o.Closes > 0 {
 		o.h.bad("ReadAt on object #%d (%s) after its Close", o.seq, o.name)
 	}
@@ -57,6 +61,9 @@ func (o *vopen) WriteAt(b []byte, off int64) (int, error) {
 	vsched.Env("open.write", o, false, nil)
 	o.Calls++
 	o.h.calls++
+	if o.h.closeEntered > 0 {
+		o.h.callsAfterCloseEntered++
+	}
 	if o.Closes > 0 {
 		o.h.bad("WriteAt on object #%d (%s) after its Close", o.seq, o.name)
 	}
@@ -76,6 +83,9 @@ func (o *vopen) ListAt(out []os.FileInfo, off int64) (int, error) {
 	if o.Closes > 0 {
 		o.h.bad("ListAt on object #%d (%s) after its Close", o.seq, o.name)
 	}
+	if o.failList {
+		return 0, errors.New("listing failed")
+	}
 	infos := []os.FileInfo{vinfo{name: "f", size: 3}, vinfo{name: "g", size: 3}}
 	if o.kind == "stat" {
 		infos = infos[:1]
@@ -92,6 +102,10 @@ func (o *vopen) ListAt(out []os.FileInfo, off int64) (int, error) {
 
 func (o *vopen) Close() error {
 	vsched.Env("open.close", o, false, nil)
+	if o.h.SlowClose {
+		o.h.closeEntered++
+		vsched.Env("open.close-exit", o, false, nil)
+	}
 	o.Closes++
 	if o.h.CloseErr {
 		return errors.New("close failed (final flush)")
@@ -105,12 +119,15 @@ func (o *vopen) TransferError(err error) {
 }
 
 type c11Handler struct {
-	CloseErr bool // every object's Close reports an error (the handle must die all the same)
-	data     map[string][]byte
-	objs     []*vopen
-	calls    int // handler object calls (for "adds nothing to the call log")
-	cmds     int
-	Bad      []string
+	CloseErr               bool // every object's Close reports an error (the handle must die all the same)
+	SlowClose              bool // Close has separate enter and exit points (a slow flush)
+	closeEntered           int
+	callsAfterCloseEntered int
+	data                   map[string][]byte
+	objs                   []*vopen
+	calls                  int // handler object calls (for "adds nothing to the call log")
+	cmds                   int
+	Bad                    []string
 }
 
 func (h *c11Handler) bad(f string, a ...any) { h.Bad = append(h.Bad, fmt.Sprintf(f, a...)) }
@@ -155,7 +172,9 @@ func (h *c11Handler) Filelist(r *Request) (ListerAt, error) {
 	if r.Method == "List" {
 		return h.newObj("dir", r), nil
 	}
-	return h.newObj("stat", r), nil
+	o := h.newObj("stat", r)
+	o.failList = strings.HasPrefix(r.Filepath, "/faillist")
+	return o, nil
 }
 
 // c11Sym is one symbol of the session alphabet.
@@ -172,7 +191,7 @@ func (s c11Sym) String() string {
 }
 
 func c11Alphabet(maxH int, full bool) []c11Sym {
-	a := []c11Sym{{"open", 0}, {"openrw", 0}, {"openfail", 0}, {"opendir", 0}, {"opendirfail", 0}, {"closebogus", 0}, {"stat", 0}}
+	a := []c11Sym{{"open", 0}, {"openrw", 0}, {"openfail", 0}, {"opendir", 0}, {"opendirfail", 0}, {"closebogus", 0}, {"stat", 0}, {"statfail", 0}}
 	if full {
 		a = append(a, c11Sym{"openw", 0})
 	}
@@ -327,6 +346,8 @@ func c11Scenario(s c11Session) explore.Scenario {
 					p = mustPkt(&sshFxpFstatPacket{ID: id, Handle: hd})
 				case "stat":
 					p = mustPkt(&sshFxpStatPacket{ID: id, Path: nm("f")})
+				case "statfail": // the lister obtained for the lookup fails in ListAt (os server: missing path)
+					p = mustPkt(&sshFxpLstatPacket{ID: id, Path: nm("faillist")})
 				}
 				f, ok := exch(p)
 				if !ok {
@@ -604,6 +625,7 @@ func init() {
 					j("os sessions depth 4, 2 handles, byte cuts", "instr-w2", "os", 4, 2, true, true, false, 900),
 					hj("rs hang-up with requests in flight W=2 db3", "instr-w2", "rs", 3, 600),
 					hj("rs hang-up with requests in flight W=8 db2", "instr", "rs", 2, 600),
+					{Part: "C11/midclose", Build: "instr", Args: map[string]string{"bound": "3"}, Shards: 16, BudgetS: 600, Label: "rs: request sent while the handler's Close is running, W=8 db3"},
 					hj("os hang-up with requests in flight W=2 db3", "instr-w2", "os", 3, 600),
 				}
 			}
@@ -617,6 +639,7 @@ func init() {
 				}(),
 				j("os sessions depth 3, 2 handles, byte cuts", "instr-w2", "os", 3, 2, false, true, false, 100),
 				hj("rs hang-up with requests in flight W=2 db2", "instr-w2", "rs", 2, 100),
+				{Part: "C11/midclose", Build: "instr-w2", Args: map[string]string{"bound": "3"}, Shards: 16, BudgetS: 100, Label: "rs: request sent while the handler's Close is running, db3"},
 				hj("os hang-up with requests in flight W=2 db2", "instr-w2", "os", 2, 100),
 			}
 		},
@@ -789,4 +812,117 @@ func c11HangupScenario(server string, burst []c11Sym) explore.Scenario {
 		}
 		return body, judge
 	}
+}
+
+// c11MidCloseScenario: the driver sends CLOSE h, waits until the handler object's Close has been
+// ENTERED (a slow Close: flushing), and only then sends a WRITE (or READ) naming h. The handle's
+// close is under way, so the request must fail and must not reach the object.
+func c11MidCloseScenario(kind string) explore.Scenario {
+	return func() (func(), func(*vsched.Exec) explore.Verdict) {
+		h := &c11Handler{data: map[string][]byte{"/f": []byte("abc")}, SlowClose: true}
+		var late frame
+		var gotLate bool
+		var served bool
+		body := func() {
+			in, out := NewVPipe("c2s"), NewVPipe("s2c")
+			conn := &vduplex{in: in, out: out}
+			rs := NewRequestServer(conn, Handlers{h, h, h, h})
+			vsched.GoNamed("serve", "harness", func() {
+				rs.Serve()
+				out.CloseWrite()
+				vsched.Env("served", conn, false, nil)
+				served = true
+			})
+			exch := func(p []byte) frame {
+				in.Write(p)
+				f, _ := readFrame(out)
+				return f
+			}
+			exch(mustPkt(&sshFxInitPacket{Version: 3}))
+			exch(mustPkt(&sshFxpOpenPacket{ID: 1, Path: "/f", Pflags: sshFxfRead | sshFxfWrite}))
+			in.Write(mustPkt(&sshFxpClosePacket{ID: 2, Handle: "1"}))
+			vsched.Env("await-close-entered", h, true, func() bool { return h.closeEntered > 0 })
+			if kind == "write" {
+				in.Write(mustPkt(&sshFxpWritePacket{ID: 3, Handle: "1", Offset: 0, Length: 2, Data: []byte("QQ")}))
+			} else {
+				in.Write(mustPkt(&sshFxpReadPacket{ID: 3, Handle: "1", Offset: 0, Len: 2}))
+			}
+			for i := 0; i < 2; i++ {
+				f, err := readFrame(out)
+				if err != nil {
+					break
+				}
+				if f.id == 3 {
+					late, gotLate = f, true
+				}
+			}
+			in.CloseWrite()
+			for {
+				if _, err := readFrame(out); err != nil {
+					break
+				}
+			}
+			vsched.Env("await-served", conn, true, func() bool { return served })
+		}
+		judge := func(e *vsched.Exec) explore.Verdict {
+			v := explore.Verdict{Outcome: fmt.Sprintf("late=%v calls-after-close=%d", late, h.callsAfterCloseEntered)}
+			v.Sample = map[string]any{"kind": kind, "late_reply": late.String()}
+			if e.Deadlock {
+				return v
+			}
+			if !gotLate {
+				v.Bad, v.Key = "no reply to the "+kind+" sent while the handle was being closed", "c11-midclose-noreply"
+				return v
+			}
+			if c, ok := late.statusCode(); !ok || c == sshFxOk {
+				v.Bad = fmt.Sprintf("%s sent after the handler's Close had been entered was answered %s (the handle is being closed: it must fail)", kind, late)
+				v.Key = "c11-midclose-served:" + kind
+				return v
+			}
+			if h.callsAfterCloseEntered > 0 {
+				v.Bad = fmt.Sprintf("%s sent after the handler's Close had been entered reached the object (%d calls)", kind, h.callsAfterCloseEntered)
+				v.Key = "c11-midclose-touched:" + kind
+			}
+			return v
+		}
+		return body, judge
+	}
+}
+
+func init() {
+	reg.Part("C11/midclose", func(c *reg.Ctx) *reg.Result {
+		total := reg.NewResult(c.Part)
+		minDone := 1 << 30
+		for i, kind := range []string{"write", "read"} {
+			r := explore.Run(explore.Config{Prop: "C11", Strategy: "db", Bound: c.ArgInt("bound", 2), Ctx: c, Label: c.Part}, c11MidCloseScenario(kind))
+			total.Evaluations += r.Evaluations
+			total.States += r.States
+			total.Transitions += r.Transitions
+			total.Distinct += r.Distinct
+			for k, v := range r.Outcomes {
+				total.Outcomes[fmt.Sprintf("s%d:%s", i, k)] += v
+			}
+			for _, sm := range r.Samples {
+				total.Sample(sm)
+			}
+			for _, v := range r.Violations {
+				total.Violate("C11", v.Key, v.Msg, map[string]any{"kind": kind, "schedule": v.Replay}, v.Trace)
+			}
+			if !r.Exhaustive {
+				total.Exhaustive = false
+			}
+			if r.EngineError != "" {
+				total.EngineError = r.EngineError
+			}
+			if d, ok := r.Notes["db_completed"].(int); ok && d < minDone {
+				minDone = d
+			}
+		}
+		if minDone == 1<<30 {
+			minDone = -1
+		}
+		total.Notes["db_completed"] = minDone
+		total.Notes["db_target"] = c.ArgInt("bound", 2)
+		return total
+	})
 }
